@@ -213,7 +213,7 @@ structure Scene where
   texHeap : List PTexture
   matHeap : List PMaterial
   models : List Model
-  lights : List (List Nat)           -- light positions (float64 patterns); the rest of a light is payload
+  lights : List (List Nat)           -- per light: position (3 float64 patterns) ++ payload [type, hasColor, r, g, b, hasIntensity, intensity, hasRange, range]
 deriving Repr, Inhabited
 
 inductive Err where
@@ -235,6 +235,7 @@ structure W where
   images : List String := []
   samplers : List Sampler := []
   lights : Nat := 0
+  lightData : List (List Nat) := []                               -- KHR_lights_punctual.lights entries (payload as written)
   meshIdx : List ((Nat × Option Nat) × Nat) := []                -- (mesh id, material index) ↦ mesh index
   written : List (Nat × (List (String × Nat) × Nat)) := []       -- mesh id ↦ (attributes, indices accessor)
   matIdx : List (PMaterial × Nat) := []                           -- tracker of added materials (resolved by value)
@@ -578,11 +579,21 @@ def addModel (s : Scene) (w : W) (md : Model) : Except Err W :=
           let i := addInstances a.1 md.instances
           .ok { i.1 with nodes := i.1.nodes ++ [modelNode md meshIndex i.2], scene := i.1.scene ++ [a.1.nodes.length] }
 
-def addLight (w : W) (pos : List Nat) : W :=
+/-- `KHR_LightsPunctual.ToExtension`: type (empty ↦ point = 1), colour through `rgbToFloatArr`, intensity and range
+    moved; payload layout [type, hasColor, r, g, b, hasIntensity, intensity, hasRange, range] -/
+def lightOut (p : List Nat) : List Nat :=
+  match p with
+  | [ty, hc, r, g, b, hi, iv, hr, rv] =>
+    [if ty = 0 then 1 else ty, hc, if hc = 1 then colorFactor r else 0, if hc = 1 then colorFactor g else 0,
+     if hc = 1 then colorFactor b else 0, hi, if hi = 1 then iv else 0, hr, if hr = 1 then rv else 0]
+  | _ => p
+
+def addLight (w : W) (l : List Nat) : W :=
   { w with
     scene := w.scene ++ [w.nodes.length]
-    nodes := w.nodes ++ [{ translation := some pos, light := some w.lights }]
+    nodes := w.nodes ++ [{ translation := some (l.take 3), light := some w.lights }]
     lights := w.lights + 1
+    lightData := w.lightData ++ [lightOut (l.drop 3)]
     extUsed := setInsert w.extUsed "KHR_lights_punctual" }
 
 def addModels (s : Scene) : W → List Model → Except Err W
@@ -637,6 +648,7 @@ structure Doc where
   images : List String
   samplers : List Sampler
   lights : Nat
+  lightData : List (List Nat)
   extUsed : List String
   extRequired : List String
 deriving Repr, Inhabited
@@ -646,7 +658,7 @@ def W.doc (w : W) : Doc :=
   { bufLen := if w.bytesWritten > 0 then some w.bytesWritten else none
     views := w.views, accessors := w.accessors, meshes := w.meshes, nodes := w.nodes, scene := w.scene
     materials := w.materials, textures := w.textures, images := w.images, samplers := w.samplers
-    lights := w.lights, extUsed := w.extUsed, extRequired := w.extRequired }
+    lights := w.lights, lightData := w.lightData, extUsed := w.extUsed, extRequired := w.extRequired }
 
 end Gltf
 end PolyVerif
